@@ -23,12 +23,12 @@ TrReset == /\ IsEvent("Reset") /\ s' = S0(Trace[l].size) /\ Mechless
 
 TrAcq == /\ IsEvent("Acq")
          /\ LET e == Trace[l] IN
-            /\ AcqOK(s, e.id, e.n, e.kind, e.gs)
-            /\ s' = Snap(AcqF(s, e.id, e.n, e.kind, e.gs), e)
+            /\ AcqOK(s, e.id, e.wt, e.kind, e.gs)
+            /\ s' = Snap(AcqF(s, e.id, e.wt, e.kind, e.gs), e)
          /\ Mechless
 
 TrTry == /\ IsEvent("Try")
-         /\ LET e == Trace[l] IN TryOK(s, e.id, e.n) /\ s' = Snap(TryF(s, e.id, e.n, e.ok), e)
+         /\ LET e == Trace[l] IN TryOK(s, e.id, e.wt) /\ s' = Snap(TryF(s, e.id, e.wt, e.ok), e)
          /\ Mechless
 
 TrCancel == /\ IsEvent("Cancel")
@@ -46,19 +46,19 @@ TrRelIntent == /\ IsEvent("RelIntent")
                /\ Mechless
 
 TrUnforceIntent == /\ IsEvent("UnforceIntent")
-                   /\ LET e == Trace[l] IN UnforceIntentOK(s, e.n) /\ s' = UnforceIntentF(s, e.n)
+                   /\ LET e == Trace[l] IN UnforceIntentOK(s, e.wt) /\ s' = UnforceIntentF(s, e.wt)
                    /\ Mechless
 
 TrRelease == /\ IsEvent("Release")
-             /\ LET e == Trace[l] IN ReleaseOK(s, e.n, e.gs) /\ s' = Snap(ReleaseF(s, e.n, e.gs), e)
+             /\ LET e == Trace[l] IN ReleaseOK(s, e.wt, e.gs) /\ s' = Snap(ReleaseF(s, e.wt, e.gs), e)
              /\ Mechless
 
 TrSetSize == /\ IsEvent("SetSize")
-             /\ LET e == Trace[l] IN SetSizeOK(s, e.n, e.gs) /\ s' = Snap(SetSizeF(s, e.n, e.gs), e)
+             /\ LET e == Trace[l] IN SetSizeOK(s, e.v, e.gs) /\ s' = Snap(SetSizeF(s, e.v, e.gs), e)
              /\ Mechless
 
 TrForce == /\ IsEvent("Force")
-           /\ LET e == Trace[l] IN s' = Snap(ForceF(s, e.n), e)
+           /\ LET e == Trace[l] IN s' = Snap(ForceF(s, e.wt), e)
            /\ Mechless
 
 TrNext == TrReset \/ TrAcq \/ TrTry \/ TrCancel \/ TrRet \/ TrRelIntent \/ TrUnforceIntent
